@@ -50,7 +50,10 @@ def run(tier):
             for l in open(ev):
                 if l.strip() and l not in seen:
                     seen.add(l)
-                    e = json.loads(l)
+                    try:
+                        e = json.loads(l)
+                    except ValueError:
+                        continue            # torn last line of a crashed recorder
                     e["_b"] = b
                     events.append(e)
     builds_of = {json.dumps({k: v for k, v in e.items() if k != "_b"}, sort_keys=True): e["_b"] for e in events}
